@@ -346,40 +346,72 @@ func c30Tables(c *Ctx) {
 	// getAndResetTrafficCheck
 	if fn := c.Func(Ref{"", "connectionManager", "getAndResetTrafficCheck"}); fn != nil {
 		var diffs []string
-		for _, in := range []bool{false, true} {
-			for _, out := range []bool{false, true} {
-				inV, outV := in, out
-				var eff []string
-				res, err := absEval(fn, &AbsEnv{Effects: &eff, OpaqueCalls: true, Oracle: func(o *typesFunc, args []AVal) (AVal, bool) {
-					if o.Name() == "Swap" && len(args) >= 1 {
-						switch {
-						case strings.HasSuffix(args[0].String(), ".in"):
-							return aBool(inV), true
-						case strings.HasSuffix(args[0].String(), ".out"):
-							return aBool(outV), true
+		// any other atomic flag the sampler consults (a configuration switch, say) is an extra boolean atom: the documented
+		// table must hold for both of its values
+		extra := []string{}
+		for pass := 0; pass < 2; pass++ {
+			diffs = nil
+			found := map[string]bool{}
+			for mask := 0; mask < 1<<len(extra); mask++ {
+				for _, in := range []bool{false, true} {
+					for _, out := range []bool{false, true} {
+						inV, outV, m := in, out, mask
+						var eff []string
+						res, err := absEval(fn, &AbsEnv{Effects: &eff, OpaqueCalls: true, Oracle: func(o *typesFunc, args []AVal) (AVal, bool) {
+							if o.Name() == "Swap" && len(args) >= 1 {
+								switch {
+								case strings.HasSuffix(args[0].String(), ".in"):
+									return aBool(inV), true
+								case strings.HasSuffix(args[0].String(), ".out"):
+									return aBool(outV), true
+								}
+							}
+							if o.Name() == "Load" && o.Pkg() != nil && o.Pkg().Path() == "sync/atomic" && len(args) == 1 {
+								name := args[0].String()
+								found[name] = true
+								for i, e := range extra {
+									if e == name {
+										return aBool(m&(1<<i) != 0), true
+									}
+								}
+								return aBool(false), true
+							}
+							return AVal{}, false
+						}})
+						if err != "" {
+							c.Unknown("C30.tables", "getAndResetTrafficCheck", "left the supported fragment: "+err)
+							return
+						}
+						touched := false
+						for _, e := range eff {
+							if strings.Contains(e, ".lastUsed=") {
+								touched = true
+							}
+						}
+						cfg := ""
+						for i, e := range extra {
+							cfg += fmt.Sprintf(" %s=%v", e, m&(1<<i) != 0)
+						}
+						if touched != (in || out) {
+							diffs = append(diffs, fmt.Sprintf("in=%v out=%v%s: lastUsed refreshed=%v, documented %v", in, out, cfg, touched, in || out))
+						}
+						if len(res) == 2 && res[0].isConst() && res[1].isConst() {
+							if constant.BoolVal(res[0].K) != in || constant.BoolVal(res[1].K) != out {
+								diffs = append(diffs, fmt.Sprintf("in=%v out=%v%s: returns (%v,%v)", in, out, cfg, res[0], res[1]))
+							}
+						} else {
+							diffs = append(diffs, "result not determined")
 						}
 					}
-					return AVal{}, false
-				}})
-				if err != "" {
-					c.Unknown("C30.tables", "getAndResetTrafficCheck", "left the supported fragment: "+err)
-					return
 				}
-				touched := false
-				for _, e := range eff {
-					if strings.Contains(e, ".lastUsed=") {
-						touched = true
-					}
+			}
+			if pass == 0 {
+				for n := range found {
+					extra = append(extra, n)
 				}
-				if touched != (in || out) {
-					diffs = append(diffs, fmt.Sprintf("in=%v out=%v: lastUsed refreshed=%v, documented %v", in, out, touched, in || out))
-				}
-				if len(res) == 2 && res[0].isConst() && res[1].isConst() {
-					if constant.BoolVal(res[0].K) != in || constant.BoolVal(res[1].K) != out {
-						diffs = append(diffs, fmt.Sprintf("in=%v out=%v: returns (%v,%v)", in, out, res[0], res[1]))
-					}
-				} else {
-					diffs = append(diffs, "result not determined")
+				sort.Strings(extra)
+				if len(extra) == 0 || len(extra) > 4 {
+					break
 				}
 			}
 		}
